@@ -57,6 +57,7 @@ var c14Hostile = []string{
 	`big = [1.0, 2, 3.5, "4", nil, true, [], {}, 9.0, 10, 11.0]; bigm = {"a": 1.0, "b": 2, "c": [3.0], "d": {"e": 4.0}, "f": nil, "g": -0.0}`,
 	`func named(a, b) {if a > b {return a - b}; a * b + 1.0}`,
 	`lam = (x, y) => x + y * 2.0; lam1 = x => x || false; lam0 = () => 1.0; lamr = () => {return 3}`,
+	`lamm = x => {{"a": 1, "b": 2}[x]}; lamd = (a, b) => {{"p": a}.p + b}; lamm2 = () => {{"a": 1}}; lamn = a => (b => a + b); lams = x => {{"a": [1, 2, 3]}.a[0:x]}; lamq = x => {{1: 2}[1] == x}`,
 	`func vari(a, ..) {len(..) + a}`,
 	`func usesglobals(n) {n + imax % 7 + len(s5)}`,
 	`func strs() {"q\"uote" + "\x01\xff" + "tab\t"}`,
